@@ -132,8 +132,11 @@ def FitAt (e : Env) (σ : St) (t r : Nat) (pre : List Nat) : Prop :=
       usageOf (σ.led.get r i).usage t ≠ none ∨ (∃ t' ∈ pre, usageOf (σ.led.get r i).usage t' ≠ none) ∨ Exhausted e σ t r i
 
 /-- **one forward task**: an earliest fit against what is in the ledger when it is placed -/
-theorem scheduleTask_fit (e : Env) (wf : WF e) (σ : St) (t r : Nat) (placed : List Nat)
-    (hinv : Inv e σ) (hs : Solid e σ) (hel : Elig e t r) (hb : t < σ.ts.size) (hf : (σ.tst t).forward = true)
+theorem scheduleTask_fit_sel (e : Env) (wf : WF e) (σ : St) (t r : Nat) (placed : List Nat)
+    (hinv : Inv e σ) (hs : Solid e σ) (hlf : (e.taskD t).leaf = true) (hal : (e.taskD t).hasAlloc = true)
+    (hnm : (e.taskD t).milestone = false) (hpos : 0 < (e.taskD t).effort)
+    (hsel1 : selectBest e (σ.setT t (σ.tst t)) (e.taskD t).alloc (e.taskD t).alt (e.taskD t).effort (initCursor e σ t).1 = [r])
+    (hb : t < σ.ts.size) (hf : (σ.tst t).forward = true)
     (hnd : (σ.tst t).done = false) (hclean : ∀ i, usageOf (σ.led.get r i).usage t = none)
     (hleaf : (e.resD r).leaf = true)
     (hown : Owned placed σ) (hnp : t ∉ placed)
@@ -143,11 +146,10 @@ theorem scheduleTask_fit (e : Env) (wf : WF e) (σ : St) (t r : Nat) (placed : L
         usageOf ((scheduleTask e σ t).1.led.get r i).usage t ≠ none ∨
         (∃ t' ∈ placed, usageOf ((scheduleTask e σ t).1.led.get r i).usage t' ≠ none) ∨
         Exhausted e (scheduleTask e σ t).1 t r i := by
-  have hpos := hel.effort
   have hpc : preStartCursor e σ t (initCursor e σ t).1 = (initCursor e σ t).1 := by
-    unfold preStartCursor; simp [hel.alloc]
+    unfold preStartCursor; simp [hal]
   have hpt : preStartT e σ t (initCursor e σ t).1 = σ.tst t := by
-    unfold preStartT; simp [hel.alloc]
+    unfold preStartT; simp [hal]
   have hoff := initCursor_off e σ t wf
   unfold scheduleTask at hok ⊢
   simp only [hnd, Bool.false_eq_true, if_false, hpc, hpt, hf] at hok ⊢
@@ -170,7 +172,7 @@ theorem scheduleTask_fit (e : Env) (wf : WF e) (σ : St) (t r : Nat) (placed : L
         by rw [size_setT]; exact hb, by rw [tst_setT_same _ _ _ hb]; exact hf, Rat.le_refl,
         ⟨fun _ i hi => absurd hi List.not_mem_nil, fun hne => absurd rfl hne⟩⟩
     have hsel0 : selectedOf e (σ.setT t (σ.tst t)) t { cur := (initCursor e σ t).1, offset := (initCursor e σ t).2 } = [r] := by
-      unfold selectedOf; exact hel.sel _ _
+      unfold selectedOf; exact hsel1
     by_cases hfin : (walkLoop e t true (e.size.toNat + 3) (σ.setT t (σ.tst t))
         { cur := (initCursor e σ t).1, offset := (initCursor e σ t).2 }).2.2 = true
     · simp only [hfin, Bool.not_true, Bool.false_eq_true, if_false] at hok ⊢
@@ -200,7 +202,7 @@ theorem scheduleTask_fit (e : Env) (wf : WF e) (σ : St) (t r : Nat) (placed : L
       have hcur : ((walkVisits e t (e.size.toNat + 3) (σ.setT t (σ.tst t))
           { cur := (initCursor e σ t).1, offset := (initCursor e σ t).2 })[(i - (initCursor e σ t).1).toNat]).2.cur = i := by
         rw [hjc]; omega
-      have := walkLoop_fit e wf t r placed _ _ _ [] h0 hs0 hel.leaf hw hin hel.alloc hel.nomile hsel0 hpos hpos hfi hfin
+      have := walkLoop_fit e wf t r placed _ _ _ [] h0 hs0 hlf hw hin hal hnm hsel0 hpos hpos hfi hfin
         hleaf hown0 hnp _ (List.getElem_mem hj) (by rw [hcur]; exact hon) (by rw [hcur]; exact hnl)
       rw [hcur] at this
       exact this
@@ -208,6 +210,21 @@ theorem scheduleTask_fit (e : Env) (wf : WF e) (σ : St) (t r : Nat) (placed : L
         { cur := (initCursor e σ t).1, offset := (initCursor e σ t).2 }).2.2 = false := by simpa using hfin
       simp only [hfin', Bool.not_false, if_true] at hok
       exact Bool.noConfusion hok
+
+/-- the same for a task whose selection is `[r]` in every state -/
+theorem scheduleTask_fit (e : Env) (wf : WF e) (σ : St) (t r : Nat) (placed : List Nat)
+    (hinv : Inv e σ) (hs : Solid e σ) (hel : Elig e t r) (hb : t < σ.ts.size) (hf : (σ.tst t).forward = true)
+    (hnd : (σ.tst t).done = false) (hclean : ∀ i, usageOf (σ.led.get r i).usage t = none)
+    (hleaf : (e.resD r).leaf = true)
+    (hown : Owned placed σ) (hnp : t ∉ placed)
+    (hok : (scheduleTask e σ t).2 = true) :
+    ∀ L, usageOf ((scheduleTask e σ t).1.led.get r L).usage t ≠ none →
+      ∀ i, (initCursor e σ t).1 ≤ i → i ≤ L → e.onShift r i = true → e.leaveMark r i = false →
+        usageOf ((scheduleTask e σ t).1.led.get r i).usage t ≠ none ∨
+        (∃ t' ∈ placed, usageOf ((scheduleTask e σ t).1.led.get r i).usage t' ≠ none) ∨
+        Exhausted e (scheduleTask e σ t).1 t r i :=
+  scheduleTask_fit_sel e wf σ t r placed hinv hs hel.leaf hel.alloc hel.nomile hel.effort (hel.sel _ _) hb hf hnd hclean hleaf
+    hown hnp hok
 
 /-! ### the pick loop, with the order of placement as a ghost -/
 
